@@ -155,9 +155,10 @@ Definition read_number (l : lx) : str * Z * lx :=
     let '(s, l') := read_based_number isOctalDigit l in (s, T_INT, l')
   else
     let '(ip, l1) := lx_read_while isDigit l in
-    (* fraction *)
+    (* fraction: a '.' after the integer digits belongs to the numeral, with or without
+       fraction digits *)
     let '(fp, ty1, l2) :=
-      if ch 46 l1 && isDigit (peek l1) then
+      if ch 46 l1 then
         let ldot := read_char l1 in
         let '(fd, l2) := lx_read_while isDigit ldot in
         (46%N :: fd, T_FLOAT, l2)
